@@ -53,7 +53,8 @@ type Dev struct {
 	Fired   bool
 	Changed bool // the bytes on the wire differ from the honest ones (set when fired)
 	// InTranscript (DevInsertRecord carrying handshake messages): the scripted peer
-	// also hashes the inserted bytes, i.e. it is consistent about its extra message
+	// also hashes the inserted bytes, i.e. it is consistent about its extra message.
+	// With DevLenField: the message is hashed as sent (with the perturbed field).
 	InTranscript bool
 }
 
@@ -88,6 +89,7 @@ type Conn struct {
 	sent          int    // outgoing unit counter
 	pending       []byte // DevCoalesce: bytes held back
 	RecVers       uint16
+	NoFragment    bool // deviation: payloads above 2^14 bytes go out in one record instead of being fragmented
 	AlertsIn      [][2]byte
 	PlainFinished bool // set by DevPlainFinished: the caller must not switch the outgoing keys
 	SentUnits     []string
@@ -119,7 +121,7 @@ func (c *Conn) recordBytes(typ uint8, vers uint16, payload []byte, o *ProtectOpt
 	var out []byte
 	for first := true; first || len(payload) > 0; first = false {
 		n := len(payload)
-		if n > MaxPlaintext {
+		if n > MaxPlaintext && !c.NoFragment {
 			n = MaxPlaintext
 		}
 		frag := payload[:n]
@@ -403,6 +405,12 @@ func (c *Conn) WriteHandshake(typ uint8, body []byte) error {
 					nv >>= 8
 				}
 				wire = Handshake(typ, b)
+				if d.InTranscript {
+					// consistent about its own message: hashed as sent, so that only the
+					// endpoint's parser (not the Finished check) can object
+					orig := Handshake(typ, body)
+					c.Transcript = append(c.Transcript[:len(c.Transcript)-len(orig)], wire...)
+				}
 			}
 		}
 		if d.Kind == DevExtendBody {
